@@ -77,9 +77,11 @@ def _cmp_spec(t, ex, witness, prop):
     else:
         if ex.outcome != want:
             why = "expected refusal with %s, observed %s" % (want, ex.outcome)
-    if why is None and want not in ("ok", "noop") and prop == "C02" and got_state != st and ex.op[0] != "new":
-        # state after a refusal is C03's business; C02 only judges the refusal class
-        pass
+    if why is None and want not in ("ok", "noop") and prop == "C02" and ex.op[0] == "new" and len(got_state) == len(st) and got_state != st:
+        # (the state after a refused assignment is C03's business; C02 only judges the refusal class.)  A constructor's
+        # parent= / children= arguments behave like the two assignments in this order: after a refusal the forest is what
+        # the assignments leave behind - the parent step done if the children step is the one refused, nothing else moved
+        why = "refused constructor call leaves another forest than parent assignment followed by children assignment"
     if why is not None:
         c = forest.case_of(ex, witness, why)
         c["expected"] = {"outcome": want, "state": forest.fmt_state(st, ex.labels)}
